@@ -163,6 +163,47 @@ fn directed_w2(rt: &tokio::runtime::Runtime) -> u64 {
     1
 }
 
+/// directed: n members are durable in the store; a FRESH map (cold set cache) reads the key -- across the 1024 spill
+/// threshold -- with staged inserts / removes on top (they must be merged into the spilled / streaming iteration)
+fn directed_cold_spill(rt: &tokio::runtime::Runtime, n: u32, staged: bool) -> u64 {
+    let db = MockDb::default();
+    {
+        let engine = DbBacked::new(db.clone(), Configuration::builder().cache_capacity(8).serialization_workers(2).build());
+        let manager = engine.new_write_manager();
+        let sets = engine.new_key_of_set_map::<SetCol, Set>();
+        let mut b0 = manager.new_write_batch();
+        for e in 0..n { rt.block_on(sets.insert(5, e, &mut b0)); }
+        manager.submit_write_batch(b0);
+        drop(sets); drop(manager);
+    }
+    let engine = DbBacked::new(db.clone(), Configuration::builder().cache_capacity(8).serialization_workers(2).build());
+    let manager = engine.new_write_manager();
+    let sets = engine.new_key_of_set_map::<SetCol, Set>();
+    let mut want: BTreeSet<u32> = (0..n).collect();
+    let mut b1 = manager.new_write_batch();
+    if staged {
+        for e in [0u32, 1, n / 2, n.saturating_sub(1)] { rt.block_on(sets.remove(&5, &e, &mut b1)); want.remove(&e); }
+        for e in [n, n + 1, 7_000_000] { rt.block_on(sets.insert(5, e, &mut b1)); want.insert(e); }
+        rt.block_on(sets.insert(5, 0, &mut b1)); want.insert(0); // removed then re-inserted
+    }
+    let got: Vec<u32> = rt.block_on(sets.get(&5)).collect();
+    let got_set: BTreeSet<u32> = got.iter().cloned().collect();
+    let got2: BTreeSet<u32> = rt.block_on(sets.get(&5)).collect();
+    eprintln!("LAST-HISTORY directed cold spill n={n} staged={staged}");
+    manager.submit_write_batch(b1);
+    drop(sets); drop(manager);
+    let desc = format!("{n} members durable in the store; fresh map (cold cache); staged ops on top: {staged}; first get(5)");
+    if got_set != want {
+        let missing: Vec<_> = want.difference(&got_set).take(5).collect();
+        let extra: Vec<_> = got_set.difference(&want).take(5).collect();
+        report_found("key-to-set map read does not reflect the operations issued before it", &desc, &format!("{} elements; missing {missing:?}; stale/extra {extra:?}", got_set.len()), &format!("{} elements", want.len()));
+    }
+    if got2 != want {
+        report_found("key-to-set map read does not reflect the operations issued before it", &format!("{desc}; SECOND get(5)"), &format!("{} elements", got2.len()), &format!("{} elements", want.len()));
+    }
+    2
+}
+
 fn main() {
     let seed = seed_from_args();
     let mut rng = Rng(seed.wrapping_mul(0x9E3779B97F4A7C15) ^ 0xC09);
@@ -170,6 +211,10 @@ fn main() {
     let mut n = 0u64;
     n += directed_w1(&rt);
     n += directed_w2(&rt);
+    for members in [3u32, 1023, 1024, 1025, 1026, 1100, 2100] {
+        n += directed_cold_spill(&rt, members, false);
+        n += directed_cold_spill(&rt, members, true);
+    }
     for cap in [1u64, 2, 4, 64] {
         for _ in 0..6 { n += history(&rt, &mut rng, cap, false, 400, "random"); }
     }
